@@ -12,6 +12,7 @@ import time
 
 HERE = os.path.dirname(os.path.abspath(__file__))
 VERIF = os.path.dirname(HERE)
+OUT = os.environ.get("VERIF_OUT", VERIF)  # where evidence/ and replays/ are written (seeded-change runs use a scratch dir)
 LEAN_DIR = os.path.join(VERIF, "lean")
 sys.path.insert(0, HERE)
 
@@ -251,9 +252,9 @@ def default_search(run):
 
 
 def write_replay(prop, kind, payload):
-    os.makedirs(os.path.join(VERIF, "replays"), exist_ok=True)
+    os.makedirs(os.path.join(OUT, "replays"), exist_ok=True)
     h = hashlib.md5(json.dumps(payload, sort_keys=True, default=str).encode()).hexdigest()[:10]
-    p = os.path.join(VERIF, "replays", f"{prop}-{kind}-{h}.json")
+    p = os.path.join(OUT, "replays", f"{prop}-{kind}-{h}.json")
     with open(p, "w") as f:
         json.dump(payload, f, indent=1, default=str)
     return p
@@ -346,8 +347,8 @@ def finish(run: Run, lean, level_text, rule, assumptions, extra_cov=None, search
     ev = {"property_id": run.prop, "tier": run.tier, "seed": run.seed, "level": "proof", "coverage": cov,
           "assumptions": assumptions, "wall_s": round(time.time() - run.t0, 2),
           "violations": 1 if exit_code == 1 else 0, "level_text": level_text, "replays": replay_paths}
-    os.makedirs(os.path.join(VERIF, "evidence"), exist_ok=True)
-    with open(os.path.join(VERIF, "evidence", f"{run.prop}.json"), "w") as f:
+    os.makedirs(os.path.join(OUT, "evidence"), exist_ok=True)
+    with open(os.path.join(OUT, "evidence", f"{run.prop}.json"), "w") as f:
         json.dump(ev, f, indent=1, default=str)
     print(f"[{run.prop}] tier={run.tier} seed={run.seed} theorems={cov['discharged']}/{cov['obligations']} "
           f"ops={run.evaluations} nontrivial={len(run.nontrivial)} disagreements={len(run.disagreements)} "
